@@ -152,6 +152,24 @@ DESC = {
  "E6-m1": "ArrayBuf::capacity() computed as size_of::<A>() / size_of::<T>() (wrong for a user RealArray with an alignment attribute)",
  "E6-m2": "FixedHeapBuf::with_capacity reserves at most 1 MiB up front (larger buffers reallocate inside send)",
  "E6-m3": "mpmc: try_receive peeks at the buffer without the lock (data race on a Send + !Sync user RingBuf; threads only)",
+ "F1-m1": "borrowed channel futures take() their channel reference during poll (needs a waker whose clone() panics: outside the properties, not counted)",
+ "F1-m2": "timer: future Drop skips the timer lock unless its node says Registered (threads only: the service is still inside wake())",
+ "F1-m3": "timer: a timer with deadline u64::MAX (what delay(Duration::MAX) saturates to) is marked Registered but not inserted into the heap",
+ "F2-m1": "fair mutex: a new lock future spins up to 32 times, releasing the internal lock in between, and takes the mutex without checking the queue (threads only)",
+ "F2-m2": "fair semaphore: saturating sum of queued request sizes replaces waiters.is_empty() (stale 0 once requests summing above usize::MAX were queued)",
+ "F2-m3": "mutex: is_locked() uses try_lock on the internal lock and answers true when it is busy (threads only)",
+ "F3-m1": "mpmc: the wake-up of an already notified receiver is re-validated in a second critical section and dropped if a barger took the value (threads only)",
+ "F3-m2": "ArrayBuf::clear() advances its indices after drop_in_place (needs a payload whose Drop panics: outside the properties, not counted)",
+ "F3-m3": "mpmc: return_oldest_receive_waiter clones the waker instead of taking it, and a re-registration keeps a stored waker",
+ "F4-m1": "state broadcast: send() reserves the StateId from an atomic before taking the lock (two sender clones: two states under one id)",
+ "F4-m2": "shared receive futures hold a Weak instead of an Arc (a future that outlives all handles yields None instead of the accepted value)",
+ "F4-m3": "mpmc shared handles: hand-written clone_from() re-points the handle without decrementing the old channel's counter",
+ "F5-m1": "timer: delay() samples the clock at the first poll instead of at the call",
+ "F5-m2": "event: first poll checks is_set, clones the waker outside the lock and enqueues in a second critical section without re-checking (threads only)",
+ "F5-m3": "timer: future Drop reads 'registered' without the lock and remove_waiter unlinks unconditionally (double unlink loses the other timers; threads only)",
+ "F6-m1": "ArrayBuf keeps size / indices in u16 (wrong only for [T; 65536])",
+ "F6-m2": "ChannelStream: explicit unsafe impl Send that forgets A: Send (stream over a !Send user RingBuf is Send)",
+ "F6-m3": "mpmc: Debug for GenericChannel reads the buffer through data_ptr() without the lock (threads only)",
 }
 
 def first_sentence(meta):
